@@ -1331,7 +1331,44 @@ fn shared_group_membership_changes_keep_every_message() {
             }
         }
     }
-    report(name, "C17", "3 strategies x (duplicate-subscribed member leaving midway: 4 and 9 messages, QoS 0/1; member joining over a backlog of 5 and 120)", cases, fail);
+    // (3) a member leaves by UNSUBSCRIBE after it had caught up (its request is parked on the log of the plain filter):
+    //     everything published afterwards goes to the remaining member, nothing to the one that left
+    if fail.is_none() {
+        'o3: for strategy in [Strategy::RoundRobin, Strategy::Sticky, Strategy::Random] {
+            for q in 0..2u8 {
+                for others in [0usize, 1] {
+                    cases += 1;
+                    let desc = format!("strategy {:?}: m0 {}subscribes to $share/g/j/+ (QoS {}), reads until caught up, unsubscribes; then 4 publishes on j/x", strategy, if others == 1 { "and m1 " } else { "" }, q);
+                    let mut r = Router::new(0, cfg(1024 * 1024, 10, strategy.clone()));
+                    let p = connect(&mut r, "p", true).unwrap();
+                    let m0 = connect(&mut r, "m0", true).unwrap();
+                    let m1 = connect(&mut r, "m1", true).unwrap();
+                    send(&mut r, &m0, vec![subscribe(1, &[("$share/g/j/+", q)])]);
+                    if others == 1 {
+                        send(&mut r, &m1, vec![subscribe(1, &[("$share/g/j/+", q)])]);
+                    }
+                    send(&mut r, &p, vec![publish("j/x", q, if q == 0 { 0 } else { 29 }, "warm", false)]);
+                    let _ = receive_all(&mut r, &m0);
+                    let _ = receive_all(&mut r, &m1);
+                    send(&mut r, &m0, vec![unsubscribe(2, &["$share/g/j/+"])]);
+                    let _ = drain(&mut r, &m0);
+                    let mut got0 = vec![];
+                    let mut got1 = vec![];
+                    for k in 0..4 {
+                        send(&mut r, &p, vec![publish("j/x", q, if q == 0 { 0 } else { 30 + k as u16 }, &format!("{}", k), false)]);
+                        got0.extend(receive_all(&mut r, &m0).into_iter().map(|g| g.1));
+                        got1.extend(receive_all(&mut r, &m1).into_iter().map(|g| g.1));
+                    }
+                    let want1: Vec<String> = if others == 1 { (0..4).map(|k| format!("{}", k)).collect() } else { vec![] };
+                    if !got0.is_empty() || got1 != want1 {
+                        fail = Some(format!("input=[{}] detail=[m0 (unsubscribed) got {:?}, m1 got {:?}, expected nothing for m0 and {:?} for m1]", desc, got0, got1, want1));
+                        break 'o3;
+                    }
+                }
+            }
+        }
+    }
+    report(name, "C17", "3 strategies x (duplicate-subscribed member leaving midway: 4 and 9 messages, QoS 0/1; member joining over a backlog of 5 and 120; caught-up member leaving by UNSUBSCRIBE with and without another member)", cases, fail);
 }
 
 // ---------------------------------------------------------------------------------------------
